@@ -204,7 +204,10 @@ type vfGetStream struct {
 	next int
 }
 
-func (s *vfGetStream) Send(r *old_faithful_grpc.GetResponse) error { s.out = append(s.out, r); return nil }
+func (s *vfGetStream) Send(r *old_faithful_grpc.GetResponse) error {
+	s.out = append(s.out, r)
+	return nil
+}
 func (s *vfGetStream) Recv() (*old_faithful_grpc.GetRequest, error) {
 	if s.next >= len(s.in) {
 		return nil, io.EOF
